@@ -20,7 +20,7 @@ constructor and `k` completed iterations, for every `k`) and at the normal end o
   once; `__step` creates the event when the remaining time reaches 0; `removeEvent` /
   in-place edits never hit a TASK_FINISHED event);
 * `placed_tasks_are_running` — every task `get_placed_tasks()` returns is RUNNING (the
-  pool-level map only mentions resident tasks, `Sim.PF`; resident ⇒ RUNNING, C01);
+  pool-level map only mentions resident tasks, `Sim.PFM`; resident ⇒ RUNNING, C01);
 * `head_due_when_zero_remaining` — hence, whenever a placed task has remaining time 0, the
   event at the head of the queue is due now or earlier, so the loop takes the popping branch;
 * `no_zero_length_step_livelock` — **in the history, of two adjacent clock entries (no pop
